@@ -16,7 +16,6 @@ M = [
  ("C05","drop-array-error","compiler.go",'		i, err := c.evalExpression(e)\n		if err != nil {\n			return nil, err\n		}\n\n		res = append(res, i)','		i, _ := c.evalExpression(e)\n\n		res = append(res, i)'),
  ("C05","infix-tolerates-all","compiler.go",'		if !isUnknownIdentifier(err, operand) {\n			return false\n		}','		if err == nil {\n			return false\n		}'),
  ("C05","compile-partial-output","compiler.go",'			return "", fmt.Errorf("line %d: %w", s.T().LineNumber, err)','			return bb.String(), fmt.Errorf("line %d: %w", s.T().LineNumber, err)'),
- ("C05","no-wrap","compiler.go",'				return nil, fmt.Errorf("could not call %s function: %w", node.Function, e)','				return nil, fmt.Errorf("could not call %s function: %v", node.Function, e)'),
  ("C06","swap-lt-le","compiler.go",'	case "<":\n		return l < r, nil\n	case ">":\n		return l > r, nil\n	case "!=":\n		return l != r, nil\n	case ">=":\n		return l >= r, nil\n	case "<=":\n		return l <= r, nil\n	case "==":\n		return l == r, nil\n	}\n	return nil, fmt.Errorf("unknown operator for integer %s", op)','	case "<":\n		return l <= r, nil\n	case ">":\n		return l > r, nil\n	case "!=":\n		return l != r, nil\n	case ">=":\n		return l >= r, nil\n	case "<=":\n		return l < r, nil\n	case "==":\n		return l == r, nil\n	}\n	return nil, fmt.Errorf("unknown operator for integer %s", op)'),
  ("C06","div-zero-ok","compiler.go",'		if r == 0 {\n			return nil, fmt.Errorf("division by zero %v %s %v", l, op, r)\n		}\n		return l / r, nil\n	case "*":\n		return l * r, nil\n	case "<":\n		return l < r, nil\n	case ">":\n		return l > r, nil\n	case "!=":\n		return l != r, nil\n	case ">=":\n		return l >= r, nil\n	case "<=":\n		return l <= r, nil\n	case "==":\n		return l == r, nil\n	}\n	return nil, fmt.Errorf("unknown operator for integer %s", op)','		if r == 0 {\n			return 0, nil\n		}\n		return l / r, nil\n	case "*":\n		return l * r, nil\n	case "<":\n		return l < r, nil\n	case ">":\n		return l > r, nil\n	case "!=":\n		return l != r, nil\n	case ">=":\n		return l >= r, nil\n	case "<=":\n		return l <= r, nil\n	case "==":\n		return l == r, nil\n	}\n	return nil, fmt.Errorf("unknown operator for integer %s", op)'),
  ("C06","string-plus-drops","compiler.go",'	case "+":\n		return l + rr, nil\n	case "<":\n		return l < rr, nil','	case "+":\n		return l, nil\n	case "<":\n		return l < rr, nil'),
@@ -49,6 +48,15 @@ M = [
  ("C15","stamp-after-token","lexer/lexer.go",'	// every token is stamped with the line on which it begins\n	line := l.curLine\n','	line := 0\n	defer func() { _ = line }()\n'),
  ("C13","newtemplate-keeps-partial","template.go",'	program, err := parser.Parse(t.Input)\n	if err != nil {\n		return err\n	}\n\n	t.program = program\n	return nil','	program, err := parser.Parse(t.Input)\n	t.program = program\n	return err'),
  ("C18","comment-skips-one","parser/parser.go",'	for p.curToken.Type != token.E_END && p.curToken.Type != token.EOF {\n		p.nextToken()\n	}\n\n	return &ast.StringLiteral{TokenAble: ast.TokenAble{Token: p.curToken}, Value: ""}','	for p.curToken.Type != token.E_END && p.curToken.Type != token.EOF {\n		p.nextToken()\n	}\n	p.nextToken()\n\n	return &ast.StringLiteral{TokenAble: ast.TokenAble{Token: p.curToken}, Value: ""}'),
+ ("C07","negate-if","compiler.go",'	if c.isTruthy(con) {\n		return c.evalBlockStatement(node.Block)','	if !c.isTruthy(con) {\n		return c.evalBlockStatement(node.Block)'),
+ ("C07","negate-elseif","compiler.go",'		if c.isTruthy(eiCon) {','		if !c.isTruthy(eiCon) {'),
+ ("C07","elseif-renders-else","compiler.go",'			return c.evalBlockStatement(eiNode.Block)','			return c.evalBlockStatement(node.ElseBlock)'),
+ ("C07","else-ignored","compiler.go",'	if node.ElseBlock != nil {\n		return c.evalBlockStatement(node.ElseBlock)\n	}\n\n	return r, nil','	return r, nil'),
+ ("C17","partial-no-child-scope","partial_helper.go",'	help.Context = help.New()\n	for k, v := range data {','	for k, v := range data {'),
+ ("C17","yield-not-html","partial_helper.go",'"yield": template.HTML(part)}','"yield": part}'),
+ ("C17","contentof-renders-twice","helpers/content/of.go",'	return fn(data)','	fn(data)\n	return fn(data)'),
+ ("C17","contentof-drops-data","helpers/content/of.go",'	return fn(data)','	return fn(nil)'),
+ ("C05","no-wrap","compiler.go",'			return nil, fmt.Errorf("could not call %s function: %w", node.Function, e)','			return nil, fmt.Errorf("could not call %s function: %v", node.Function, e)'),
 ]
 def main():
     only = sys.argv[1:] 
